@@ -23,9 +23,9 @@ TIERS = {"quick": {"runs": 2400, "wall_cap": 600}, "thorough": {"runs": 40000, "
 RULE = (
     "each evaluation is one seeded history (<=30 quick / <=50 thorough events) of a client driving SPARQLUpdateStore (autocommit on/off x "
     "dirty_reads on/off x GET/POST/POST_FORM x XML/JSON results x context_aware on/off) through Graph and ConjunctiveGraph handles: add, addN over "
-    "several graphs, remove in all 8 pattern shapes, remove_graph, update(text) incl. a contextual graph, commit, rollback, and lazy reads "
+    "several graphs, remove in all 8 pattern shapes, remove_graph, update(text) incl. a contextual graph, Graph.parse of a document that may be malformed midway, commit, rollback, and lazy reads "
     "(triples in 8 shapes -> SELECT/ASK, len, membership, contexts, query) that the scheduler opens and steps later, against an in-process "
-    "endpoint that executes every request text with rdflib's own engine on a backing Dataset; terms with quotes, backslashes, newlines, "
+    "endpoint that executes every request text with rdflib's own engine on a backing Dataset (the IRI rdflib uses internally for its default graph is an ordinary named graph there); terms with quotes, backslashes, newlines, "
     "non-ASCII and non-BMP characters, language tags, datatypes, empty and falsy values; after every event the backing dataset is compared "
     "with a transactional reference model (endpoint dataset + pending list) and every completed read with the model's answer; fault runs "
     "inject one or more transport faults at seeded request indices (thorough: every request index of a sampled history) and demand: the call "
